@@ -61,14 +61,14 @@ func c32Check(c c32Case, r *ev.Rec) error {
 	return nil
 }
 
-const c32Rule = "texts over {a, newline, 2-, 3- and 4-byte characters}; every offset on a character boundary including end of file x {bytes, runes, UTF-16} columns; oracle: InverseLocation(Location(o)) == o and line == 1+newlines before o; non-trivial = text has a multi-byte character and a newline; distinct by text"
+const c32Rule = "texts over {a, newline, 2-, 3- and 4-byte characters - the latter from plane 1 (lead byte 0xF0) and from planes 4, 14 and 16 (lead bytes 0xF1, 0xF3, 0xF4)}; every offset on a character boundary including end of file x {bytes, runes, UTF-16} columns; oracle: InverseLocation(Location(o)) == o and line == 1+newlines before o; non-trivial = text has a multi-byte character and a newline; distinct by text"
 
 func TestC32_Enum(t *testing.T) {
 	maxLen := 4
 	if ev.Thorough() {
 		maxLen = 7
 	}
-	syms := []string{"a", "\n", "é", "€", "😀"}
+	syms := []string{"a", "\n", "é", "€", "😀", "\U000E0067"} // U+E0067: a 4-byte character whose lead byte is not 0xF0
 	ev.RunEnum(t, ev.Spec[c32Case]{ID: "C32", Name: "Enum",
 		Rule:  fmt.Sprintf("ALL texts of <=%d symbols; ", maxLen) + c32Rule,
 		Check: c32Check}, true, func(yield func(c32Case) bool) {
